@@ -520,6 +520,13 @@ def _flows_into(g, smap, fnode, value, at, depth=3):
                     st.value.func.value.id == nm and st.value.args:
                 v = st.value.args[-1]
             if v is not None and id(st) in smap and smap[id(st)] is not at:
+                # a fill under another binding of the name (the loop variable
+                # of another loop) fills another object
+                here = {n.id for n, x in reaching_defs(g, nm, at.id)}
+                there = {n.id for n, x in reaching_defs(g, nm,
+                                                        smap[id(st)].id)}
+                if here and there and not (here & there):
+                    continue
                 out |= _flows_into(g, smap, fnode, v, smap[id(st)], depth - 1)
     return out
 
@@ -2508,6 +2515,260 @@ def r04_8(prog, rep, rid='R04.8'):
 
 
 # ------------------------------------------------------------------------------
+# R04.9  what a task did not ask for does not keep it off a node.  Whether a
+# waiting task "can never be scheduled" is inferred from a failed placement on
+# the idle pilot (R04.2); that is only right if, on the idle pilot, the search
+# passes over a node for no other reason than one the task itself gave.  The
+# node loop of schedule_task does pass over nodes because of what the scheduler
+# remembers across releases (self._colo_history, self._tagged_nodes: written by
+# schedule_task, never cleared) - at the request of the task, through the
+# options in td['tags'].  The description default of `tags` is the empty dict:
+# a lookup `td['tags'].get(key, default)` answers `default` for every task
+# that says nothing about `key`.  So for every such skip, every option lookup
+# that gates one of its guards (the guard is closed for the other truth value
+# of the option) closes it at its default as well.
+#
+def _empty_dict_options(prog):
+    """keys of the task description whose documented default is an empty
+    dict (TaskDescription._defaults): tags, metadata"""
+    K = prog.cls('task_description.py', 'TaskDescription')
+    tab = K.consts.get('_defaults')
+    if not isinstance(tab, ast.Dict):
+        raise AnalysisError('UNRECOGNISED-IDIOM %s: no literal _defaults table'
+                            % K.where)
+    out = set()
+    for k, v in zip(tab.keys, tab.values):
+        empty = (isinstance(v, ast.Dict) and not v.keys) or (
+            isinstance(v, ast.Call) and dotted(v.func) == 'dict' and
+            not v.args and not v.keywords)
+        if empty and k is not None:
+            key = prog.fold(K.module, k, K)
+            if isinstance(key, str):
+                out.add(key)
+    return out
+
+
+def _once_assigned(f):
+    """{name: value} of the locals bound exactly once, by a plain assignment"""
+    count, val = {}, {}
+    for n in ast.walk(f.node):
+        if isinstance(n, ast.Name) and isinstance(n.ctx, (ast.Store, ast.Del)):
+            count[n.id] = count.get(n.id, 0) + 1
+        elif isinstance(n, ast.ExceptHandler) and n.name:
+            count[n.name] = count.get(n.name, 0) + 2
+        if isinstance(n, ast.Assign) and len(n.targets) == 1 and \
+                isinstance(n.targets[0], ast.Name):
+            val[n.targets[0].id] = n.value
+    for p_ in f.params:
+        count[p_] = count.get(p_, 0) + 1
+    return {k: v for k, v in val.items() if count.get(k) == 1}
+
+
+def _key_of(e):
+    """(base, key) of `base['key']` / `base.get('key'[, d])`"""
+    if isinstance(e, ast.Subscript) and isinstance(e.slice, ast.Constant) \
+            and isinstance(e.slice.value, str):
+        return e.value, e.slice.value
+    if isinstance(e, ast.Call) and isinstance(e.func, ast.Attribute) and \
+            e.func.attr == 'get' and e.args and \
+            isinstance(e.args[0], ast.Constant) and \
+            isinstance(e.args[0].value, str):
+        return e.func.value, e.args[0].value
+    return None
+
+
+class _Options:
+    """the option lookups `<description>[<sub dict>].get(key[, default])` of
+    one function, and the evaluation of a test with each of them at a chosen
+    value"""
+
+    def __init__(self, prog, f, subdicts):
+        self.prog, self.f, self.sub = prog, f, subdicts
+        self.defs = _once_assigned(f)
+
+    def _res(self, e, depth=4):
+        while isinstance(e, ast.Name) and e.id in self.defs and depth > 0:
+            e, depth = self.defs[e.id], depth - 1
+        return e
+
+    def is_descr(self, e):
+        e = self._res(e)
+        k = _key_of(e)
+        return bool(k) and k[1] == 'description'
+
+    def lookup(self, e):
+        """(sub dict key, option key, default expr or None) if `e` is a
+        lookup of an option the task may leave out"""
+        if not (isinstance(e, ast.Call) and isinstance(e.func, ast.Attribute)
+                and e.func.attr == 'get' and 1 <= len(e.args) <= 2 and
+                not e.keywords and isinstance(e.args[0], ast.Constant)):
+            return None
+        base = _key_of(self._res(e.func.value))
+        if not base or base[1] not in self.sub or \
+                not self.is_descr(base[0]):
+            return None
+        return base[1], e.args[0].value, (e.args[1] if len(e.args) == 2
+                                          else None)
+
+    def options_in(self, e, depth=4, out=None):
+        """{(sub, key): [default exprs]} read by `e` through once-assigned
+        locals"""
+        out = {} if out is None else out
+        for x in walk(e):
+            lk = self.lookup(x)
+            if lk:
+                out.setdefault(lk[:2], []).append(lk[2])
+            elif isinstance(x, ast.Name) and x.id in self.defs and depth > 0:
+                self.options_in(self.defs[x.id], depth - 1, out)
+        return out
+
+    def at(self, e, setting, depth=5):
+        """`e` with once-assigned locals replaced by their value and every
+        option lookup by the constant `setting[(sub, key)]` says (a function
+        of the default expression)"""
+        lk = self.lookup(e) if isinstance(e, ast.Call) else None
+        if lk and lk[:2] in setting:
+            return setting[lk[:2]](lk[2])
+        if isinstance(e, ast.Name) and e.id in self.defs and depth > 0 and \
+                self.options_in(self.defs[e.id]):
+            return self.at(self.defs[e.id], setting, depth - 1)
+        if isinstance(e, ast.UnaryOp) and isinstance(e.op, ast.Not):
+            return ast.UnaryOp(op=ast.Not(),
+                               operand=self.at(e.operand, setting, depth))
+        if isinstance(e, ast.BoolOp):
+            return ast.BoolOp(op=e.op, values=[self.at(v, setting, depth)
+                                               for v in e.values])
+        if _is_bool_call(e):
+            return ast.Call(func=e.func, keywords=[],
+                            args=[self.at(e.args[0], setting, depth)])
+        if isinstance(e, ast.IfExp):
+            return ast.IfExp(test=self.at(e.test, setting, depth),
+                             body=self.at(e.body, setting, depth),
+                             orelse=self.at(e.orelse, setting, depth))
+        if isinstance(e, ast.Compare) and len(e.ops) == 1:
+            return ast.Compare(left=self.at(e.left, setting, depth),
+                               ops=e.ops, comparators=e.comparators)
+        return e
+
+
+def r04_9(prog, rep, rid='R04.9'):
+    from .c02 import sched_info
+    rep.rule(rid, 'schedule_task passes over a node because of what the '
+             'scheduler remembers across releases (tag history) only at the '
+             "request of the task: an option of td['tags'] that gates such a "
+             'skip closes it at the default the lookup gives a task that did '
+             'not set the option', minimum=2)
+    subdicts = _empty_dict_options(prog)
+    base, classes = sched_classes(prog)
+    for K in classes:
+        f, g, smap, rem, alc, X, dec, ext, find_call = sched_info(prog, K)
+        rep.saw(f)
+        F = smap[id(find_call)]
+        H = F.loops[-1]
+        body = g.loop_body[H]
+        opts = _Options(prog, f, subdicts)
+        # what schedule_task itself remembers: self.<attr> it stores into
+        kept = set()
+        for kind_, t, n in I.stores(f.node):
+            p_ = t
+            if kind_ in ('assign', 'aug'):
+                if not isinstance(t, ast.Subscript):
+                    continue                    # (re-binding an attribute)
+                while isinstance(p_, ast.Subscript):
+                    p_ = p_.value
+            elif kind_ != 'mutate':
+                continue
+            if I.is_path(p_) and root_name(p_) == 'self' and \
+                    isinstance(p_, ast.Attribute):
+                kept.add(unparse(p_))
+        start = loop_slice(g, H)[0]
+        before = g.reachable(start, skip_nodes={F.id, H})
+        for n in g.stmt_nodes():
+            if n.kind != 'stmt' or not isinstance(n.ast, ast.Continue) or \
+                    n.id not in before or n.id not in body or \
+                    not n.loops or n.loops[-1] != H:
+                continue
+            gs = [(g.nodes[t], lab) for t, lab in guards(g, n.id, start=start)
+                  if g.nodes[t].ast is not None]
+
+            def reads_kept(e, depth=4):
+                for x in walk(e):
+                    if I.is_path(x) and unparse(x) in kept:
+                        return True
+                    if isinstance(x, ast.Name) and x.id in opts.defs and \
+                            depth > 0 and reads_kept(opts.defs[x.id],
+                                                     depth - 1):
+                        return True
+                return False
+            if not any(reads_kept(t.ast) for t, lab in gs):
+                continue
+            for t, lab in gs:
+                pol = lab == 'T'
+                for (sub, key), dflts in sorted(opts.options_in(t.ast)
+                                                .items()):
+                    for d in dflts:
+                        dv = None if d is None else prog.fold(f.module, d,
+                                                              f.cls)
+                        if dv is UNKNOWN:
+                            raise AnalysisError(
+                                'UNRECOGNISED-IDIOM %s: the default `%s` of '
+                                "td[%r].get(%r, ..) is not a constant"
+                                % (f.where, short(d, 30), sub, key))
+
+                        def const(v):
+                            return lambda d_: ast.Constant(value=v)
+                        v_d = _truth(opts.at(t.ast, {(sub, key): const(dv)}),
+                                     {})
+                        v_n = _truth(opts.at(t.ast, {(sub, key): const(
+                            not bool(dv))}), {})
+                        gates = v_n is not None and v_n != pol
+                        closed = v_d is not None and v_d != pol
+                        fixed = v_d is not None and v_d == v_n == pol
+                        if not gates and not closed and not fixed:
+                            # the option does not decide this guard alone
+                            continue
+                        rep.check(closed, rid, f,
+                                  "%s: the skip `%s` guarded by td[%r].get(%r) "
+                                  'is closed at the default %r' % (
+                                      K.name, short(t.ast, 40), sub, key, dv),
+                                  construct='%s:%s.%s:default' % (K.name, sub,
+                                                                  key),
+                                  message="%s.schedule_task passes over a "
+                                  'node that %s remember(s) from earlier '
+                                  'tasks when `%s` is %s.  The guard is '
+                                  "closed by td[%r][%r] = %r, but a task "
+                                  'that does not set %r gets the default %r '
+                                  'from `%s`, which leaves it open: tasks '
+                                  'that never asked for it are kept off the '
+                                  'remembered nodes.  That memory is not '
+                                  'cleared when tasks complete, so the nodes '
+                                  'stay off limits on the idle pilot too; a '
+                                  'lone waiting task that needs them is then '
+                                  'failed as "can never be scheduled" '
+                                  '(_active_cnt == 0) although it fits'
+                                  % (K.name, ' / '.join(sorted(kept)),
+                                     short(t.ast, 60),
+                                     'true' if pol else 'false', sub, key,
+                                     not bool(dv), key, dv,
+                                     short(ast.Call(
+                                         func=ast.Attribute(
+                                             value=ast.Name(id="td[%r]" % sub,
+                                                            ctx=ast.Load()),
+                                             attr='get', ctx=ast.Load()),
+                                         args=[ast.Constant(value=key)] + (
+                                             [d] if d is not None else []),
+                                         keywords=[]), 60)),
+                                  loc=f.loc(t.ast),
+                                  history='2 nodes x 2 cores; T0 (1 core, '
+                                  "tags={'colocate': 'A'}) runs on node 0 and "
+                                  'completes; P (4 ranks x 1 core, '
+                                  "tags={'colocate': 'B'}) waits alone: node "
+                                  '0 is passed over, the placement fails on '
+                                  'the idle pilot and P is failed instead of '
+                                  'started')
+
+
+# ------------------------------------------------------------------------------
 #
 def run(prog, rep, tier):
     rep.decided = ('exactly one outcome per task on every path of the intake '
@@ -2548,6 +2809,7 @@ def run(prog, rep, tier):
     rep.attempt(r04_5, prog, rep)
     rep.attempt(r04_7, prog, rep)
     rep.attempt(r04_8, prog, rep)
+    rep.attempt(r04_9, prog, rep)
     # the counter the rule R04.2 rests on
     from .c03 import r03_3
     rep.attempt(r03_3, prog, rep, rid='R03.3')
@@ -2573,6 +2835,22 @@ _TRIAGE_HEAD = "            pool = self._waitpool[priority]\n            if not 
 _TRIAGE_COMP = _TRIAGE_HEAD + "            def env_ready(task):\n                named_env = task['description'].get('named_env')\n                return not named_env or named_env in self._named_envs\n\n            ready   = {uid: env_ready(task) for uid, task in pool.items()}\n            to_wait = [task for uid, task in pool.items() if not ready[uid]]\n            to_test = sorted([task for uid, task in pool.items() if ready[uid]],\n                             key=lambda x: x['tuple_size'][0], reverse=True)\n"
 _TRIAGE_2LOOPS = _TRIAGE_HEAD + "            to_wait = list()\n            for task in pool.values():\n                ne = task['description'].get('named_env')\n                if ne and ne not in self._named_envs:\n                    to_wait.append(task)\n\n            to_test = list()\n            for task in pool.values():\n                ne = task['description'].get('named_env')\n                if not ne or ne in self._named_envs:\n                    to_test.append(task)\n            to_test.sort(key=lambda x: x['tuple_size'][0], reverse=True)\n"
 _TRIAGE_INLINE = _TRIAGE_HEAD + "            to_wait = [t for t in pool.values()\n                       if t['description'].get('named_env') and\n                       t['description'].get('named_env') not in self._named_envs]\n            to_test = [t for t in pool.values()\n                       if not t['description'].get('named_env') or\n                       t['description'].get('named_env') in self._named_envs]\n            to_test.sort(key=lambda x: x['tuple_size'][0], reverse=True)\n"
+
+_EXCL = "                    is_exclusive = td['tags'].get('exclusive', False)\n"
+_EXCL_IF = "                    if is_exclusive and node_index in self._tagged_nodes:\n"
+
+_RES_OLD = ("            for task in scheduled:\n"
+            "                td = task['description']\n"
+            "                task['$set']      = ['resources']\n"
+            "                task['resources'] = {'cpu': td['ranks'] * td['cores_per_rank'],\n"
+            "                                     'gpu': td['ranks'] * td['gpus_per_rank']}\n")
+_RES_NEW = ("            for task in scheduled:\n"
+            "                task['$set']      = ['resources']\n"
+            "                task['resources'] = self._get_resources(task['description'])\n")
+_RES_DEF = ("    @staticmethod\n    def _get_resources(td):\n\n"
+            "        return {'cpu': td['ranks'] * td['cores_per_rank'],\n"
+            "                'gpu': td['ranks'] * td['gpus_per_rank']}\n\n\n"
+            "    # --------------------------------------------------------------------------\n    #\n")
 
 MUTATIONS = [
     dict(name='R04.1 invalid-ranks task failed and scheduled (F10 reverted)', rules=('R04.1',), edits=[
@@ -2698,6 +2976,19 @@ MUTATIONS = [
         (_C, "        assert cores_per_slot <= cores_per_node, \\\n", "        assert cores_per_slot < cores_per_node, \\\n")]),
     dict(name='R04.8 hoisted fit test with the boundary moved', rules=('R04.8',), edits=[
         (_C, "        if not mpi and req_slots > slots_per_node:\n", "        too_big = slots_per_node <= req_slots\n        if not mpi and too_big:\n")]),
+    dict(name='R04.9 default of the exclusive tag is True (seed C04-h6)', rules=('R04.9',), edits=[
+        (_C, _EXCL, _EXCL.replace('False', 'True'))]),
+    dict(name='R04.9 jsrun: default of the exclusive tag is True', rules=('R04.9',), edits=[
+        (_J, _EXCL, _EXCL.replace('False', 'True'))]),
+    dict(name='R04.9 missing exclusive tag falls back to True through `or`', rules=('R04.9',), edits=[
+        (_C, _EXCL, "                    is_exclusive = td['tags'].get('exclusive') or True\n")]),
+    dict(name='R04.9 tag renamed to its opposite (shared), default and test not adapted together', rules=('R04.9',), edits=[
+        (_J, _EXCL + _EXCL_IF, "                    shared = td['tags'].get('shared', False)\n                    if not shared and node_index in self._tagged_nodes:\n")]),
+    dict(name='R04.9 exclusive read with a non-empty string default', rules=('R04.9',), edits=[
+        (_C, _EXCL, "                    is_exclusive = td['tags'].get('exclusive', 'no')\n")]),
+    dict(name='R04.1 resources of the placed tasks through a helper (seed C04-r9 shape); new pool built from the placed tasks', rules=('R04.1',), edits=[
+        (_B, _RES_OLD, _RES_NEW), (_B, _FAILDEF, _RES_DEF + _FAILDEF),
+        (_B, _NEWPOOL, _NEWPOOL.replace('(unscheduled + to_wait)', '(scheduled + to_wait)'))]),
 ]
 
 SILENT = [
@@ -2798,4 +3089,23 @@ SILENT = [
         (_C, "        if not mpi and req_slots > slots_per_node:\n", "        too_big = req_slots > slots_per_node\n        if not mpi and too_big:\n")]),
     dict(name='per-slot assert as if/raise', edits=[
         (_C, "        assert cores_per_slot <= cores_per_node, \\\n               'too many threads per proc %s' % cores_per_slot\n", "        if cores_per_slot > cores_per_node:\n            raise AssertionError('too many threads per proc %s' % cores_per_slot)\n")]),
+    dict(name='exclusive tag read without an explicit default (None is falsy)', edits=[
+        (_C, _EXCL, "                    is_exclusive = td['tags'].get('exclusive')\n")]),
+    dict(name='tags hoisted into a local, exclusive converted with bool()', edits=[
+        (_J, _EXCL, "                    tags = td['tags']\n                    is_exclusive = bool(tags.get('exclusive', False))\n")]),
+    dict(name='exclusive guard in De Morgan / pass-else form', edits=[
+        (_C, _EXCL_IF + "                        if len(self.nodes) > len(self._tagged_nodes):\n                            continue\n",
+             "                    if not is_exclusive or node_index not in self._tagged_nodes:\n                        pass\n                    elif len(self.nodes) > len(self._tagged_nodes):\n                        continue\n                    else:\n"
+             "                        pass\n                    if is_exclusive and node_index in self._tagged_nodes:\n")]),
+    dict(name='tags read with td.get and the lookup inlined into the test', edits=[
+        (_J, _EXCL + _EXCL_IF, "                    if td.get('tags', {}).get('exclusive', False) and \\\n                            node_index in self._tagged_nodes:\n")]),
+    dict(name='tag renamed to its opposite (shared) with default and test adapted', edits=[
+        (_C, _EXCL + _EXCL_IF, "                    shared = td['tags'].get('shared', True)\n                    if not shared and node_index in self._tagged_nodes:\n")]),
+    dict(name='waitpool pass: resources of the placed tasks computed by a helper from the task itself (seed C04-r9)', edits=[
+        (_B, _RES_OLD, _RES_NEW), (_B, _FAILDEF, _RES_DEF + _FAILDEF)]),
+    dict(name='waitpool pass: resources of the placed tasks updated in place from the task', edits=[
+        (_B, _RES_OLD, "            for task in scheduled:\n"
+                       "                task['$set']      = ['resources']\n"
+                       "                task['resources'] = dict(cpu=task['description']['ranks'] * task['description']['cores_per_rank'],\n"
+                       "                                         gpu=task['description']['ranks'] * task['description']['gpus_per_rank'])\n")]),
 ]
